@@ -381,6 +381,9 @@ macro_rules! interp {
                         (exec(0, || { regs[r] = $V::with_capacity(arg(2)); }), exec(1, || { mirs[r] = Vec::with_capacity(arg(2)); })) }
                     "drop" => { let r = reg(w[1]);
                         (exec(0, || { regs[r] = $V::new(); }), exec(1, || { mirs[r] = Vec::new(); })) }
+                    // desync r <leaf> <pop|push|clear> [tag]: edit ONE public field array directly (safe code can do this)
+                    "desync" => { let r = reg(w[1]); let what = w[3]; let tag = if w.len() > 4 { arg(4) as u32 } else { 30 };
+                        (exec(0, || { let mut j = arg(2) as i64; let l = arg(2) as u32; <T as Shape>::desync(&mut regs[r], &mut j, what, tag * 8 + l); }), exec(1, || {})) }
                     // the container is owned by a frame that unwinds: it is destroyed while the thread is panicking
                     "unwind_drop" => { let r = reg(w[1]);
                         (exec(0, || -> () { let _owned = std::mem::take(&mut regs[r]); if _owned.len() < usize::MAX { panic!("unwinding with a live container") } }),
@@ -754,6 +757,7 @@ macro_rules! interp {
                 emit(out, format!("I {} {} regs={}", n, ri, ic.join(";")));
                 emit(out, format!("S {} {} regs={}", n, rs, sc.join(";")));
             }
+            if LIVE.with(|l| l.get()) { emit(out, "# step end".to_string()); }
             // final drop of every container: everything created must have been destroyed exactly once
             let fi = exec(0, || { regs.clear(); });
             let fs = exec(1, || { mirs.clear(); });
